@@ -901,11 +901,15 @@ class BuiltinMixin:
     def m_str_startswith(self, obj, args, kwargs, line):
         if obj.s is not None and isinstance(args[0], StrV) and args[0].s is not None:
             return BoolV(obj.s.startswith(args[0].s))
+        if isinstance(args[0], StrV) and args[0].s is not None:
+            return BoolV(self.ctx.str_pred("startswith", args[0].s, obj))
         return BoolV(z3.Bool(self.ctx.fresh_name("startswith")))
 
     def m_str_endswith(self, obj, args, kwargs, line):
         if obj.s is not None and isinstance(args[0], StrV) and args[0].s is not None:
             return BoolV(obj.s.endswith(args[0].s))
+        if isinstance(args[0], StrV) and args[0].s is not None:
+            return BoolV(self.ctx.str_pred("endswith", args[0].s, obj))
         return BoolV(z3.Bool(self.ctx.fresh_name("endswith")))
 
     def m_str_isdigit(self, obj, args, kwargs, line):
